@@ -257,4 +257,4 @@ def run(rep, tier, seed, only=None):
     rep.rule = "program = (circuit, rewrite call); function preservation/specialisation decided by z3 over all inputs"
     rep.explanation = "translation validation per rewrite"
     canary(rep)
-    rep.pmap(unit, [seed * 197 + s for s in range(48 if thorough else 16)])
+    rep.pmap(unit, [seed * 197 + s for s in range(192 if thorough else 64)])
